@@ -40,8 +40,8 @@ Proof. exact replay_spec. Qed.
 Print Assumptions C11_replay_spec.
 
 (** Outcome, repaired variant, over the finite lattice of job building blocks
-    (5 sources x 6 transforms x 3 sinks x 2 trigger types x 2 job types x 6 handler sets, + kill for
-    the slow source and the two stalling http remotes = 3456 configurations; decided by vm_compute and lifted with forallb_forall - the
+    (7 sources x 6 transforms x 3 sinks x 2 trigger types x 2 job types x 6 handler sets, + kill for
+    the slow source and the two stalling http remotes = 4320 configurations; decided by vm_compute and lifted with forallb_forall - the
     bound is the lattice itself): every accepted configuration ends with a stored result
     (success, failure or kill), the run slot released and the process alive. *)
 Theorem C11_outcome : forall c, In c all_cfgs -> accepted jfixed c = true ->
@@ -50,7 +50,7 @@ Theorem C11_outcome : forall c, In c all_cfgs -> accepted jfixed c = true ->
 Proof. exact outcome_lattice. Qed.
 Print Assumptions C11_outcome.
 
-Theorem C11_lattice_size : length all_cfgs = 3456%nat.
+Theorem C11_lattice_size : length all_cfgs = 4320%nat.
 Proof. exact lattice_size. Qed.
 Print Assumptions C11_lattice_size.
 
@@ -136,6 +136,6 @@ Example C11_nonvacuous_1 :
   /\ replay [OBorrow 1 false; OBorrow 2 false] (r_init 2 1) = None.
 Proof. vm_compute. repeat split. Qed.
 Example C11_nonvacuous_2 :
-  length (filter (accepted jfixed) all_cfgs) = 2880%nat
-  /\ length (filter dies_current all_cfgs) = 868%nat.
+  length (filter (accepted jfixed) all_cfgs) = 3600%nat
+  /\ length (filter dies_current all_cfgs) = 980%nat.
 Proof. vm_compute. split; reflexivity. Qed.
